@@ -17,7 +17,7 @@ func init() {
 		ID:        "C02",
 		Run:       runC02,
 		Technique: "runtime round-trip monitor: Marshal -> own decoder / datagram decoder / list decoder -> structural comparison modulo the three documented quantisations (computed by the reference model)",
-		Rule: "values of all 16 packet types from the seeded boundary-biased generator over the well-formed domain D (DESIGN.md section 3) and lists of 1..12 mixed packets; " +
+		Rule: "values of all 16 packet types from the seeded boundary-biased generator over the well-formed domain D (DESIGN.md section 3) lists of 1..12 mixed packets, values whose encoding has 64 KiB or more (8 shapes), and decoded lists re-marshalled in a rearranged order with fresh packets in between (result = concatenation of the own encodings; source datagram and packets unchanged); " +
 			"non-trivial = Marshal succeeded and the own decoder was run on at least 8 octets; distinct by digest of (type, marshalled octets)",
 		Assumptions: []string{
 			"D (DESIGN.md section 3) is my reading of 'well-formed'; SenderReport extensions are multiples of 4 octets, TWCC/CCFB encodings stay below 65536 octets",
